@@ -349,6 +349,20 @@ func (c *countReader) Read(p []byte) (int, error) {
 }
 func (c *countReader) Close() error { return c.r.Close() }
 
+// replayReader yields recorded bytes and then the error the original body reader ended with.
+type replayReader struct {
+	b   *bytes.Reader
+	err error
+}
+
+func (r *replayReader) Read(p []byte) (int, error) {
+	n, err := r.b.Read(p)
+	if err == io.EOF && r.err != nil {
+		return n, r.err
+	}
+	return n, err
+}
+
 type respTap struct {
 	http.ResponseWriter
 	status int
@@ -384,8 +398,10 @@ func (s *server) tap(next http.Handler) http.Handler {
 		cr := &countReader{r: r.Body}
 		if !quiet {
 			// read the body up front for the record, then hand the handler a counting reader over it
-			reqBody, _ = io.ReadAll(io.LimitReader(r.Body, 8<<20))
-			cr = &countReader{r: io.NopCloser(bytes.NewReader(reqBody))}
+			// (a read error of the transport — upload cut short, broken chunk — is replayed after the bytes)
+			var rerr error
+			reqBody, rerr = io.ReadAll(io.LimitReader(r.Body, 8<<20))
+			cr = &countReader{r: io.NopCloser(&replayReader{b: bytes.NewReader(reqBody), err: rerr})}
 		}
 		r.Body = cr
 		ri := &reqInfo{srv: s, wid: wid, hdr: r.Header.Clone(), body: cr}
